@@ -163,6 +163,7 @@ Definition ex_sched : list (@action) :=
    Deliver 2 1; Deliver 2 1; Deliver 1 2; Deliver 1 2; Deliver 1 2; Deliver 1 2; Deliver 2 1; Deliver 2 1].
 Example c25_non_vacuous :
   wf ex_cfg /\ guards ex_cfg /\ uniq ex_cfg /\
+  nhandled ex_cfg (init (ucs_proto ex_cfg)) ex_sched = 11%nat /\ Omega ex_cfg = 339%nat /\
   In (EvDone 1 [(0, [2]); (1, [2])]) (snd (run (ucs_proto ex_cfg) ex_sched)) /\
   In (EvAccept 1 3 2 10 [(2, (2, 3))]) (snd (run (ucs_proto ex_cfg) ex_sched)) /\
   In (EvRepl 1 0 [2]) (snd (run (ucs_proto ex_cfg) ex_sched)) /\
@@ -172,5 +173,6 @@ Proof.
   split; [apply wf_b_sound; vm_compute; reflexivity|].
   split; [apply guards_b_sound; vm_compute; reflexivity|].
   split; [apply uniq_b_sound; vm_compute; reflexivity|].
+  split; [vm_compute; reflexivity|]. split; [vm_compute; reflexivity|].
   vm_compute. intuition.
 Qed.
